@@ -1,6 +1,6 @@
 (* C16 -- A damaged header never wins: open falls back to the intact one or fails cleanly.
    Property theorems only; proofs live in Proofs/. *)
-From VF Require Import Meta MetaProofs Fnv BytesProofs.
+From VF Require Import Meta MetaProofs Fnv BytesProofs Pages PagesProofs.
 
 (* total description of the selection among two header slots *)
 Theorem C16_select_spec : forall s0 s1,
@@ -117,3 +117,17 @@ Definition ex_file : list Z :=
   (firstn 9 h ++ 0 :: skipn 10 h) ++ zeros (1024 - 84) ++ h ++ zeros (2048 - 84).
 Example C16_ex_fallback : read_valid_meta ex_file = SelOk 1 42.
 Proof. vm_compute. reflexivity. Qed.
+
+(* ---- the pages an intact header refers to (D19) ----
+   Open never panics: the readers of the free-list and mapping pages answer with an error when the entry count
+   of a page is beyond the page, and the guard never changes the result on a page that can be decoded. *)
+Theorem C16_entry_count_beyond_page_is_an_error : forall cnt p, Z.of_nat (length p) < cnt ->
+  decode_entries_z cnt p = None /\ decode_wal_entries_z cnt p = None.
+Proof. exact count_beyond_page_is_error. Qed.
+Print Assumptions C16_entry_count_beyond_page_is_an_error.
+
+Theorem C16_entry_count_guard_is_exact : forall cnt p,
+  decode_entries_z cnt p = decode_entries (Z.to_nat cnt) p /\
+  decode_wal_entries_z cnt p = decode_wal_entries (Z.to_nat cnt) p.
+Proof. intros cnt p. split; [apply decode_entries_z_eq | apply decode_wal_entries_z_eq]. Qed.
+Print Assumptions C16_entry_count_guard_is_exact.
